@@ -59,6 +59,8 @@ NamedTD(id) ==
     [] id \in {"UPt", "UExp"} -> TStruct(<<Fld("X", <<88>>, TScalar("int64")), Fld("Y", <<89>>, TScalar("int64"))>>)
     [] id = "UObj" -> TStruct(<<Fld("K", <<75>>, TScalar("string")), Fld("N", <<78>>, TScalar("int64"))>>)
     [] id = "UProc" -> TStruct(<<Fld("N", <<78>>, TScalar("int64")), Fld("First", <<70, 105, 114, 115, 116>>, TScalar("int64"))>>)
+    \* a processing unfolder whose cell holds the type again (what it yields is not modelled: targets of C14, Unspec in C13)
+    [] id = "UNest" -> TStruct(<<Fld("N", <<78>>, TScalar("int64")), Fld("Kids", <<75, 105, 100, 115>>, TSlice(TNamed("UNest")))>>)
     [] OTHER -> TStruct(<<Fld("A", <<65>>, TScalar("int"))>>)        \* ZeroT ZeroP FoldT FoldObj RegT RegObj
 Resolve(T) == IF T.k = "named" /\ T.id \notin RefuseIds THEN NamedTD(T.id) ELSE T
 
@@ -326,7 +328,7 @@ ZeroPlain(T0) ==
 (*          by ten (small v only: no 64-bit multiplication in the model)    *)
 (* For every other stream value the user code returns an error or converts *)
 (* without a range check: unspecified.                                     *)
-UserUnfoldIds == {"UStr", "UI64", "UPt", "UExp", "UObj", "UProc", "USelf", "UKeys"}
+UserUnfoldIds == {"UStr", "UI64", "UPt", "UExp", "UObj", "UProc", "USelf", "UKeys", "UNest"}
 IsI64(sv) == sv.k = "int" /\ FitsKind(sv.v, "int64")
 UFld(j, val) == [key |-> <<j>>, val |-> val]
 MemberIdx(sv, name) == {j \in 1..Len(sv.v) : sv.v[j].key = name}
